@@ -8,4 +8,5 @@ INVARIANT C07_LinkShape
 INVARIANT C07_BoxSize
 INVARIANT C07_TextVerbatim
 INVARIANT C07_TickText
+INVARIANT C07_TickTextDenotesPosition
 CHECK_DEADLOCK FALSE
